@@ -1,19 +1,20 @@
+mod cborx;
 mod fw;
+mod gen;
+mod notation;
+mod p_codec;
 mod p_hex;
 use fw::*;
 
-pub struct Exec {
-    pub imp: String,
-    pub oracle_fail: Option<String>,
-    pub known_key: String,
-    pub nontrivial: bool,
-}
-
-fn exec(line: &str) -> Option<Exec> {
-    if line.starts_with("hex.") {
-        return p_hex::exec(line).map(|e| Exec { imp: e.imp, oracle_fail: e.oracle_fail, known_key: e.known_key, nontrivial: e.nontrivial });
+fn exec(line: &str, model: &mut Model) -> Option<Exec> {
+    let op = line.split(' ').next().unwrap_or("");
+    if op.starts_with("hex.") {
+        return p_hex::exec(line);
     }
-    None
+    match op {
+        "enc" | "dec" | "spec.enc" | "spec.dec" | "crcok" | "crc16" | "crc32" => p_codec::exec(line, model),
+        _ => None,
+    }
 }
 
 fn main() {
@@ -45,13 +46,14 @@ fn main() {
     let mut rep = Report::new(&prop, rule);
     let mut batch: Vec<(String, String, bool)> = Vec::new();
     let mut emit = |ctx: &mut Ctx, rep: &mut Report, line: String| {
-        match exec(&line) {
+        match exec(&line, &mut ctx.model) {
             Some(e) => {
                 if let Some(f) = &e.oracle_fail {
                     rep.oracle_fail(&e.known_key, &line, f);
                 }
                 let cls = e.imp.split(' ').next().unwrap_or("").to_string();
                 rep.count(&format!("{}:{}", line.split(' ').next().unwrap_or(""), cls));
+                for t in &e.tags { rep.count(t); }
                 batch.push((line, e.imp, e.nontrivial));
             }
             None => {
@@ -85,6 +87,7 @@ fn main() {
         }
         match prop.as_str() {
             "C18" => p_hex::generate(&mut ctx, &mut rep, &mut emit),
+            "C01" | "C02" | "C03" | "C04" => p_codec::generate(&prop, &mut ctx, &mut rep, &mut emit),
             _ => { eprintln!("unknown property {}", prop); std::process::exit(2); }
         }
     }
